@@ -147,11 +147,88 @@ func c07RunMode(run *vfRun, c c07Case, mode string) {
 		}
 	}
 	var puts int64
+	// "from the transition on only shares of the new group count": every beacon a node AGGREGATES for a round at or
+	// after a transition must be backed by a threshold of distinct partials — handed to that node, or emitted by it —
+	// that the harness itself verified under the public polynomial of the group governing that round
+	type c07Gov struct {
+		tRound uint64
+		poly   *share.PubPoly
+		thr    int
+	}
+	var govMu sync.Mutex
+	var gov []c07Gov
+	backed := map[[2]uint64]map[int]bool{} // (node, round) -> signer indices valid under the governing polynomial
+	seenPartials := map[[2]uint64][]string{} // (node, round) -> what was handed over / emitted, for the report
+	governing := func(r uint64) *c07Gov {
+		var g *c07Gov
+		for i := range gov {
+			if gov[i].tRound <= r {
+				g = &gov[i]
+			}
+		}
+		return g
+	}
+	recordBacked := func(node int, p *proto.PartialBeaconPacket, how string) {
+		govMu.Lock()
+		g := governing(p.GetRound())
+		govMu.Unlock()
+		if g == nil {
+			return
+		}
+		prev := p.GetPreviousSignature()
+		if !nt.chained() {
+			prev = nil
+		}
+		idx, err := sch.ThresholdScheme.IndexOf(p.GetPartialSig())
+		if err != nil {
+			return
+		}
+		k := [2]uint64{uint64(node), p.GetRound()}
+		ok := sch.ThresholdScheme.VerifyPartial(g.poly, nt.digest(p.GetRound(), prev), p.GetPartialSig()) == nil
+		govMu.Lock()
+		if len(seenPartials[k]) < 24 {
+			seenPartials[k] = append(seenPartials[k], fmt.Sprintf("%s:idx%d:valid-under-governing-group=%v", how, idx, ok))
+		}
+		govMu.Unlock()
+		if !ok {
+			return
+		}
+		govMu.Lock()
+		if backed[k] == nil {
+			backed[k] = map[int]bool{}
+		}
+		backed[k][idx] = true
+		govMu.Unlock()
+	}
 	if mode == "c07" {
 		nt.onPut = func(n *vfbNode, b *common.Beacon, src string, seq int64) {
 			atomic.AddInt64(&puts, 1)
 			orc.onPut(n, b, src, seq)
+			if src != "agg" {
+				return
+			}
+			govMu.Lock()
+			g := governing(b.Round)
+			// the node's own partial goes to its aggregator before anything is sent, so it cannot be observed in time:
+			// it is granted, and a threshold minus one is asked of the OTHER members' partials handed to the node
+			have := 1
+			for idx := range backed[[2]uint64{uint64(n.pos), b.Round}] {
+				if idx != n.index {
+					have++
+				}
+			}
+			seen := append([]string(nil), seenPartials[[2]uint64{uint64(n.pos), b.Round}]...)
+			govMu.Unlock()
+			if g == nil {
+				return
+			}
+			run.Count("aggregations_at_or_after_a_transition_counted", 1)
+			if have < g.thr {
+				run.Violation(fmt.Sprintf("C07/beacon-after-transition-without-threshold-of-new-group-partials/%s", c.Shape),
+					fmt.Sprintf("node %d aggregated round %d (transition round %d) while it held at most %d partial(s) valid under the new group's polynomial (its own granted), threshold %d; partials of that round seen at the node: %v", n.pos, b.Round, g.tRound, have, g.thr, seen), info)
+			}
 		}
+		nt.onDeliver = func(to *vfbNode, from int, p *proto.PartialBeaconPacket, src string, seq int64) { recordBacked(to.pos, p, "handed-over") }
 		nt.onSyncSend = orc.onSyncSend
 		nt.onPutRet = orc.onPutRet
 	} else {
@@ -246,6 +323,16 @@ func c07RunMode(run *vfRun, c c07Case, mode string) {
 		}
 		tRound := clockRound + uint64(lead)
 		next := c07Reshare(nt, cur, append([]int(nil), members2...), t2, tRound, rng)
+		// the switch is made by a store callback on the first beacon >= tRound-1 stored AFTER the registration: with a
+		// late registration (round tRound-1 already stored everywhere) that is round tRound, which is therefore still
+		// produced with the previous shares, and the new group governs from tRound+1 on
+		eff := tRound
+		if lead == 1 {
+			eff = tRound + 1
+		}
+		govMu.Lock()
+		gov = append(gov, c07Gov{tRound: eff, poly: next.group.PublicKey.PubPoly(sch), thr: next.group.Threshold})
+		govMu.Unlock()
 		inNext := map[int]bool{}
 		for _, p := range next.members {
 			inNext[p] = true
